@@ -333,7 +333,7 @@ Theorem json_doc_offsets_are_utf16 c d c2 :
                 exists vn sf, slot f "sofa" = VSofa vn /\ find_sofa c2 vn = Some sf /\
                   forall x z, x = "begin" \/ x = "end" -> slot f x = VInt z ->
                     off_in_text (s_text sf) z /\ alookup x m = Some (JInt (utf16_off (s_text sf) z))))
-            (sort_ids (w_all w)) fss.
+            (found_list c2 w) fss.
 Proof.
   intros HL HS WF Hpos.
   destruct (save_json_parts L s mode c d c2 HL HS WF Hpos)
@@ -343,8 +343,9 @@ Proof.
   { intros o. rewrite find_all_fs_from in Ew. exact (find_all_exact _ _ _ _ _ Ew o). }
   split; [reflexivity|].
   pose proof (mapM_Forall2 _ _ _ Efss) as F2.
-  assert (Hsub : forall io, In io (sort_ids (w_all w)) -> found_okP s c2 io) by (intros io Hio; apply Hfound; apply (proj1 (sort_ids_In _ _)); exact Hio).
-  clear Efss HS. revert F2 Hsub. generalize (sort_ids (w_all w)) as found. intros found F2.
+  assert (Hsub : forall io, In io (found_list c2 w) -> found_okP s c2 io).
+  { intros io Hio; apply Hfound. unfold found_list, unwritten in Hio. apply filter_In in Hio. apply (proj1 (sort_ids_In _ _)). exact (proj1 Hio). }
+  clear Efss HS. revert F2 Hsub. generalize (found_list c2 w) as found. intros found F2.
   induction F2 as [|io j l l' Hj _ IH]; intros Hsub; constructor.
   - destruct (Hsub io (or_introl eq_refl)) as (f & Hg & Hok & Hi).
     unfold fs_at in Hj. rewrite Hg in Hj. cbn [bind] in Hj.
@@ -376,7 +377,7 @@ Proof.
   exists w. split; [exact Ew|].
   rewrite (denote_save_json L s mode c d c2 HL HS WF Hpos) in Hden. unfold canon_json in Hden. rewrite Ew in Hden. cbn [bind] in Hden.
   unfold Json.canon_of in Hden.
-  destruct (mapM _ (sofa_arrays c2 ++ map snd (sort_ids (w_all w)))) as [items| |] eqn:Eit; cbn [bind] in Hden; try discriminate.
+  destruct (mapM _ (listed c2 w)) as [items| |] eqn:Eit; cbn [bind] in Hden; try discriminate.
   destruct (mapM (Json.canon_sofa c2) (c_views c2)) as [csofas| |] eqn:Eso; cbn [bind] in Hden; try discriminate.
   inversion Hden; subst cc. clear Hden. cbn [cc_fs cc_sofas].
   intros i o f Hin Hg Harr Ha.
@@ -386,8 +387,11 @@ Proof.
   destruct Hti as (ti & Hti).
   destruct (json_annotation_facts s c2 f ti Hok Hti Harr Ha) as (_ & _ & vn & sf & Es & Evs & Hoff).
   (* the entry of this structure in the canonical content *)
-  assert (Ho : In o (sofa_arrays c2 ++ map snd (sort_ids (w_all w)))).
-  { apply in_or_app. right. apply in_map_iff. exists (i, o). split; [reflexivity|apply (proj2 (sort_ids_In _ _)); exact Hin]. }
+  assert (Ho : In o (listed c2 w)).
+  { unfold listed. apply in_or_app. destruct (omem o (sofa_arrays c2)) eqn:Eo.
+    - left. apply omem_In. rewrite sofa_arrays_once_mem. exact Eo.
+    - right. apply in_map_iff. exists (i, o). split; [reflexivity|]. unfold unwritten. apply filter_In.
+      split; [apply (proj2 (sort_ids_In _ _)); exact Hin|]. cbn [snd]. rewrite Eo. reflexivity. }
   destruct (jmapM_In_fwd _ _ _ _ Eit Ho) as (y & Hy & Ey). cbv beta in Ey. rewrite Hg, Hi in Ey.
   destruct (Json.canon_fs s c2 f) as [cf| |] eqn:Ecf; cbn [bind] in Ey; try discriminate. inversion Ey; subst y. clear Ey.
   unfold Json.canon_fs in Ecf. rewrite Hti, Harr in Ecf.
